@@ -121,8 +121,8 @@ fn core_word_div(xs: &mut State) -> Xresult {
             if *b == 0 {
                 Err(Xerr::DivisionByZero)
             } else {
-                let c = Cell::from(a / *b);
-                xs.push_data(c)
+                let c = a.checked_div(*b).ok_or_else(|| Xerr::IntegerOverflow)?;
+                xs.push_data(Cell::from(c))
             }
         }
         Cell::Real(b) => {
